@@ -183,6 +183,16 @@ fn main() {
             );
             writeln!(w, "{}", em.stats.to_json()).unwrap();
         }
+        "probe" => {
+            if args.len() != 3 {
+                usage();
+            }
+            let text = read_input(&args[2]);
+            if let Err(e) = krp_harness::probe::run(&text, &mut w) {
+                eprintln!("krp-harness: {}", e);
+                std::process::exit(2);
+            }
+        }
         "kernel-eval" => {
             // read `ARGS` lines (optionally `ARGS => anything`) on stdin, print `ARGS => RESULT`
             if args.len() != 3 {
